@@ -276,9 +276,21 @@ class SetWrapper(typing.MutableSet[T]):
     def __ixor__(  # type: ignore
         self: _SetWrapperSelf, other: typing.AbstractSet[T]
     ) -> _SetWrapperSelf:
-        if other is not self and isinstance(other, SetWrapper):
-            other = set(other)
-        return super().__ixor__(other)  # type: ignore
+        if other is self:
+            self.clear()
+            return self
+        # Take the members out before the new elements are put in. When an
+        # element being added carries the UUID of a member being removed (the
+        # same node of another copy of the IR), removing last would delete
+        # the UUID table entry the newcomer has just been given.
+        values = set(other)
+        present = [value for value in values if value in self]
+        absent = [value for value in values if value not in self]
+        for value in present:
+            self.discard(value)
+        for value in absent:
+            self.add(value)
+        return self
 
     def pop(self) -> T:
         it = iter(self)
